@@ -305,6 +305,8 @@ package bigbuff
 //@   ensures held : x.wg != nil && boundrecv(ret) == x.wg && boundname(ret) == "(*sync.WaitGroup).Done"
 //@   ensures counted : old(x.wg) != nil ==> x.wg == old(x.wg) && wgn(x.wg) == old(wgn(x.wg)) + 1
 //@   ensures counted1 : old(x.wg) == nil ==> wgn(x.wg) == 1
+//@   # the holder is registered inside the critical section: the wait goroutine cannot see a group whose count is behind
+//@   at-call (*sync.WaitGroup).Add#0 locked : heldW(x.mu) && arg0 == 1
 //@   # stop/done are read by the instance goroutine without the lock: (re)written only while no instance exists
 //@   write-when stop done noinstance : heldW(x.mu) && x.done == nil && spawned("(*Worker).do") == 0
 
@@ -345,6 +347,8 @@ package bigbuff
 //@   requires open : c != nil && !closed(c) && ctx != nil && count >= 1
 //@   nopanic always : true
 //@   loop 0 invariant counted : 0 <= i && i <= count && sent(c) == old(sent(c)) + i && !closed(c)
+//@   # the loop only ever waits on a ticker that is still running (it is stopped by the deferred call, at exit)
+//@   loop 0 invariant ticking : ticker != nil && !timerstopped(ticker)
 //@   at-call send#0 fresh : lasterr(ctx) == nil
 //@   ensures closedonce : closed(c)
 //@   ensures bound : sent(c) <= old(sent(c)) + count
@@ -1024,7 +1028,9 @@ package bigbuff
 //@   requires validated : len(fv_in) == len(args) && all(i, 0, len(fv_in), fv_in[i] != nil && (args[i] != nil ==> rt_assignable(rt_of(args[i]), fv_in[i])) && (args[i] == nil ==> rnilable(rt_kind(fv_in[i]))))
 //@   nopanic always : true
 //@   ensures arity : len(results) == len(fv_in)
-//@   loop 0 invariant filled : len(results) == len(fv_in)
+//@   # every given (non-nil) argument is handed over unchanged: the i-th Value holds exactly args[i]
+//@   ensures forwarded : all(i, 0, len(results), args[i] != nil ==> rv_iface(results[i]) == args[i])
+//@   loop 0 invariant filled : len(results) == len(fv_in) && all(j, 0, rangeindex + 1, args[j] != nil ==> rv_iface(results[j]) == args[j])
 
 //@ func CallResults$1$1
 //@   props C19
@@ -1065,6 +1071,7 @@ package bigbuff
 //@   ensures fresh : !(old(has(n.subscribers, key)) && old(has(n.subscribers[key], rv_pointer(rv_of(target)))))
 //@   ensures-panic outer_unchanged : n.subscribers == old(n.subscribers) && forall(k, any, has(n.subscribers, k) == old(has(n.subscribers, k)) && n.subscribers[k] == old(n.subscribers[k]))
 //@   ensures-panic inner_unchanged : forall(k, any, forall(p, int, has(n.subscribers[k], p) == old(has(n.subscribers[k], p))))
+//@   ensures-panic entries_unchanged : forall(k, any, forall(p, int, old(has(n.subscribers, k)) && old(has(n.subscribers[k], p)) ==> n.subscribers[k][p].ctx == old(n.subscribers[k][p].ctx) && n.subscribers[k][p].target == old(n.subscribers[k][p].target)))
 
 //@ func (*Notifier).Unsubscribe
 //@   maypanic
@@ -1074,6 +1081,7 @@ package bigbuff
 //@   ensures existed : old(has(n.subscribers, key)) && old(has(n.subscribers[key], rv_pointer(rv_of(target))))
 //@   ensures-panic outer_unchanged : n.subscribers == old(n.subscribers) && forall(k, any, has(n.subscribers, k) == old(has(n.subscribers, k)) && n.subscribers[k] == old(n.subscribers[k]))
 //@   ensures-panic inner_unchanged : forall(k, any, forall(p, int, has(n.subscribers[k], p) == old(has(n.subscribers[k], p))))
+//@   ensures-panic entries_unchanged : forall(k, any, forall(p, int, old(has(n.subscribers, k)) && old(has(n.subscribers[k], p)) ==> n.subscribers[k][p].ctx == old(n.subscribers[k][p].ctx) && n.subscribers[k][p].target == old(n.subscribers[k][p].target)))
 
 // ---------------------------------------------------------------------------------------------------
 // C09 / C10 — Exclusive (exclusive.go): mechanism contracts (composition lemma M6 in DESIGN.md)
